@@ -115,6 +115,10 @@ MbRec(d, b) == [id |-> b, rid |-> d.mb[b].rid, name |-> d.mb[b].name, uv |-> d.m
 SnapRow(d, row) == [m |-> row.m, rid |-> d.msgs[row.m].rid, uid |-> row.uid, rec |-> row.rec, del |-> row.del,
                     fl |-> d.msgs[row.m].fl]
 
+\* simulation draws one argument value per step (TLC would otherwise enumerate every successor of the scheduled
+\* operation at every step); the exhaustive runs range over the whole domain
+Arg(S) == IF Record /\ S # {} THEN {RandomElement(S)} ELSE S
+
 \* box ids offered as arguments: every id handed out so far (existing or deleted) and the next one (never created)
 BoxArgs == 1..db.nextBox
 
@@ -183,8 +187,14 @@ App(o, t, n, st) ==
         [] o = "AbortPanic" -> t = "write"
         [] IsRead(o) -> t = "none" \/ (t = "write" /\ ReadsInTx)
         [] OTHER -> t = "write" /\ n < MaxTxOps
+\* a database that is nearly empty is filled first: extra weight for the creating operations
+TotalRows(d) == LET S == ExBoxes(d) IN IF S = {} THEN 0 ELSE Len(Rows(d, Pick(S))) + (IF Card(S) > 1 THEN Len(Rows(d, Pick(S \ {Pick(S)}))) ELSE 0)
+Boost(d) ==
+  (IF Card(ExBoxes(d)) < 2 THEN Rep("CreateMailbox", 60) \o Rep("GetOrCreateMailbox", 10) ELSE <<>>)
+  \o (IF Card(ExMsgs(d)) < 2 THEN Rep("CreateMessages", 60) ELSE <<>>)
+  \o (IF ExBoxes(d) # {} /\ ExMsgs(d) # {} /\ TotalRows(d) < 2 THEN Rep("AddMessagesToMailbox", 60) \o Rep("CreateMessageAndAddToMailbox", 20) ELSE <<>>)
 Spin == IF Record
-        THEN LET w == SelectSeq(Wheel, LAMBDA o : App(o, tx', nops', steps')) IN
+        THEN LET w == SelectSeq(Wheel \o Boost(db'), LAMBDA o : o \in Ops /\ App(o, tx', nops', steps')) IN
              nextop' = IF Len(w) = 0 THEN "" ELSE w[RandomElement(1..Len(w))]
         ELSE nextop' = nextop
 
@@ -235,27 +245,27 @@ Abort(op) ==
 -----------------------------------------------------------------------------
 (* read operations: mailboxes *)
 
-R_MailboxExistsWithID == \E b \in BoxArgs :
+R_MailboxExistsWithID == \E b \in Arg(BoxArgs) :
   DoRead("MailboxExistsWithID", [b |-> b], Ok(Ex(db, b)), Sh(0, 0, HM(Ex(db, b))))
 
-R_MailboxExistsWithRemoteID == \E r \in BoxRids :
+R_MailboxExistsWithRemoteID == \E r \in Arg(BoxRids) :
   DoRead("MailboxExistsWithRemoteID", [r |-> r], Ok(BoxByRid(db, r) # {}), Sh(0, 0, HM(BoxByRid(db, r) # {})))
 
-R_MailboxExistsWithName == \E n \in BoxNames :
+R_MailboxExistsWithName == \E n \in Arg(BoxNames) :
   DoRead("MailboxExistsWithName", [n |-> n], Ok(BoxByName(db, n) # {}), Sh(0, 0, HM(BoxByName(db, n) # {})))
 
-R_GetMailboxIDFromRemoteID == \E r \in BoxRids :
+R_GetMailboxIDFromRemoteID == \E r \in Arg(BoxRids) :
   LET S == BoxByRid(db, r) IN
   DoRead("GetMailboxIDFromRemoteID", [r |-> r], IF S = {} THEN NotFound ELSE Ok(Pick(S)), Sh(0, 0, HM(S # {})))
 
-R_GetMailboxName == \E b \in BoxArgs :
+R_GetMailboxName == \E b \in Arg(BoxArgs) :
   DoRead("GetMailboxName", [b |-> b], IF Ex(db, b) THEN Ok(db.mb[b].name) ELSE NotFound, Sh(0, 0, HM(Ex(db, b))))
 
-R_GetMailboxNameWithRemoteID == \E r \in BoxRids :
+R_GetMailboxNameWithRemoteID == \E r \in Arg(BoxRids) :
   LET S == BoxByRid(db, r) IN
   DoRead("GetMailboxNameWithRemoteID", [r |-> r], IF S = {} THEN NotFound ELSE Ok(db.mb[Pick(S)].name), Sh(0, 0, HM(S # {})))
 
-R_GetMailboxMessageIDPairs == \E b \in BoxArgs :
+R_GetMailboxMessageIDPairs == \E b \in Arg(BoxArgs) :
   DoRead("GetMailboxMessageIDPairs", [b |-> b],
          IF Ex(db, b) THEN Ok({[m |-> m, rid |-> db.msgs[m].rid] : m \in RowMsgs(db, b)}) ELSE Err,
          IF Ex(db, b) THEN Sh(Card(RowMsgs(db, b)), 0, "hit") ELSE Sh(0, 0, "miss"))
@@ -267,65 +277,65 @@ R_GetAllMailboxesWithAttr ==
 R_GetAllMailboxesAsRemoteIDs ==
   DoRead("GetAllMailboxesAsRemoteIDs", [x |-> ""], Ok({db.mb[b].rid : b \in ExBoxes(db)}), Sh(Card(ExBoxes(db)), 0, ""))
 
-R_GetMailboxByName == \E n \in BoxNames :
+R_GetMailboxByName == \E n \in Arg(BoxNames) :
   LET S == BoxByName(db, n) IN
   DoRead("GetMailboxByName", [n |-> n], IF S = {} THEN NotFound ELSE Ok(MbRec(db, Pick(S))), Sh(0, 0, HM(S # {})))
 
-R_GetMailboxByID == \E b \in BoxArgs :
+R_GetMailboxByID == \E b \in Arg(BoxArgs) :
   DoRead("GetMailboxByID", [b |-> b], IF Ex(db, b) THEN Ok(MbRec(db, b)) ELSE NotFound, Sh(0, 0, HM(Ex(db, b))))
 
-R_GetMailboxByRemoteID == \E r \in BoxRids :
+R_GetMailboxByRemoteID == \E r \in Arg(BoxRids) :
   LET S == BoxByRid(db, r) IN
   DoRead("GetMailboxByRemoteID", [r |-> r], IF S = {} THEN NotFound ELSE Ok(MbRec(db, Pick(S))), Sh(0, 0, HM(S # {})))
 
 RecentMsgs(d, b) == {Rows(d, b)[i].m : i \in {j \in DOMAIN Rows(d, b) : Rows(d, b)[j].rec}}
 
-R_GetMailboxRecentCount == \E b \in BoxArgs :
+R_GetMailboxRecentCount == \E b \in Arg(BoxArgs) :
   DoRead("GetMailboxRecentCount", [b |-> b], IF Ex(db, b) THEN Ok(RecentMsgs(db, b)) ELSE Err,
          IF Ex(db, b) THEN Sh(Card(RowMsgs(db, b)), Card(RecentMsgs(db, b)), "hit") ELSE Sh(0, 0, "miss"))
 
-R_GetMailboxMessageCount == \E b \in BoxArgs :
+R_GetMailboxMessageCount == \E b \in Arg(BoxArgs) :
   DoRead("GetMailboxMessageCount", [b |-> b], IF Ex(db, b) THEN Ok(RowMsgs(db, b)) ELSE Err,
          IF Ex(db, b) THEN Sh(Card(RowMsgs(db, b)), 0, "hit") ELSE Sh(0, 0, "miss"))
 
-R_GetMailboxMessageCountWithRemoteID == \E r \in BoxRids :
+R_GetMailboxMessageCountWithRemoteID == \E r \in Arg(BoxRids) :
   LET S == BoxByRid(db, r) IN
   DoRead("GetMailboxMessageCountWithRemoteID", [r |-> r], IF S = {} THEN NotFound ELSE Ok(RowMsgs(db, Pick(S))),
          IF S = {} THEN Sh(0, 0, "miss") ELSE Sh(Card(RowMsgs(db, Pick(S))), 0, "hit"))
 
-R_GetMailboxFlags == \E b \in BoxArgs :
+R_GetMailboxFlags == \E b \in Arg(BoxArgs) :
   DoRead("GetMailboxFlags", [b |-> b], Ok(IF Ex(db, b) THEN db.mb[b].fl ELSE {}),
          IF Ex(db, b) THEN Sh(Card(db.mb[b].fl), 0, "hit") ELSE Sh(0, 0, "miss"))
 
-R_GetMailboxPermanentFlags == \E b \in BoxArgs :
+R_GetMailboxPermanentFlags == \E b \in Arg(BoxArgs) :
   DoRead("GetMailboxPermanentFlags", [b |-> b], Ok(IF Ex(db, b) THEN db.mb[b].pf ELSE {}),
          IF Ex(db, b) THEN Sh(Card(db.mb[b].pf), 0, "hit") ELSE Sh(0, 0, "miss"))
 
-R_GetMailboxAttributes == \E b \in BoxArgs :
+R_GetMailboxAttributes == \E b \in Arg(BoxArgs) :
   DoRead("GetMailboxAttributes", [b |-> b], Ok(IF Ex(db, b) THEN db.mb[b].at ELSE {}),
          IF Ex(db, b) THEN Sh(Card(db.mb[b].at), 0, "hit") ELSE Sh(0, 0, "miss"))
 
 \* the next uid of a mailbox that does not exist is not judged (the code answers 1)
-R_GetMailboxUID == \E b \in BoxArgs :
+R_GetMailboxUID == \E b \in Arg(BoxArgs) :
   DoRead("GetMailboxUID", [b |-> b], IF Ex(db, b) THEN Ok(db.mb[b].next) ELSE Unjudged,
          IF Ex(db, b) THEN Sh(Card(RowMsgs(db, b)), 0, IF db.mb[b].next = 1 THEN "fresh" ELSE "used") ELSE Sh(0, 0, "miss"))
 
-R_GetMailboxMessageCountAndUID == \E b \in BoxArgs :
+R_GetMailboxMessageCountAndUID == \E b \in Arg(BoxArgs) :
   DoRead("GetMailboxMessageCountAndUID", [b |-> b],
          IF Ex(db, b) THEN Ok([cnt |-> RowMsgs(db, b), uid |-> db.mb[b].next]) ELSE Err,
          IF Ex(db, b) THEN Sh(Card(RowMsgs(db, b)), 0, IF db.mb[b].next = 1 THEN "fresh" ELSE "used") ELSE Sh(0, 0, "miss"))
 
-R_GetMailboxMessageForNewSnapshot == \E b \in BoxArgs :
+R_GetMailboxMessageForNewSnapshot == \E b \in Arg(BoxArgs) :
   DoRead("GetMailboxMessageForNewSnapshot", [b |-> b],
          IF Ex(db, b) THEN Ok([seq |-> [i \in DOMAIN Rows(db, b) |-> SnapRow(db, Rows(db, b)[i])]]) ELSE Err,
          IF Ex(db, b) THEN Sh(Len(Rows(db, b)), 0, "hit") ELSE Sh(0, 0, "miss"))
 
-R_MailboxTranslateRemoteIDs == \E l \in RidLists :
+R_MailboxTranslateRemoteIDs == \E l \in Arg(RidLists) :
   LET hit == {b \in ExBoxes(db) : db.mb[b].rid \in Range(l)} IN
   DoRead("MailboxTranslateRemoteIDs", [rl |-> l], Ok(hit), Sh(Len(l), Card(hit), ""))
 
 \* an empty list asks nothing (no statement), whatever the mailbox
-R_MailboxFilterContains == \E b \in BoxArgs : \E l \in MsgLists :
+R_MailboxFilterContains == \E b \in Arg(BoxArgs) : \E l \in Arg(MsgLists) :
   LET hit == {m \in Range(l) : InBox(db, m, b)} IN
   DoRead("MailboxFilterContains", [b |-> b, ml |-> l],
          IF l = <<>> THEN Ok({}) ELSE IF Ex(db, b) THEN Ok(hit) ELSE Err, Sh(Len(l), Card(hit), HM(Ex(db, b))))
@@ -342,35 +352,35 @@ R_GetAllMailboxesNameAndRemoteID ==
 
 MsgRec(d, m) == [m |-> m, rid |-> d.msgs[m].rid, del |-> d.msgs[m].del]
 
-R_MessageExists == \E m \in Msgs :
+R_MessageExists == \E m \in Arg(Msgs) :
   DoRead("MessageExists", [m |-> m], Ok(MEx(db, m)), Sh(0, 0, HM(MEx(db, m))))
 
-R_MessageExistsWithRemoteID == \E r \in MsgRids :
+R_MessageExistsWithRemoteID == \E r \in Arg(MsgRids) :
   DoRead("MessageExistsWithRemoteID", [r |-> r], Ok(MsgByRid(db, r) # {}), Sh(0, 0, HM(MsgByRid(db, r) # {})))
 
-R_GetMessageNoEdges == \E m \in Msgs :
+R_GetMessageNoEdges == \E m \in Arg(Msgs) :
   DoRead("GetMessageNoEdges", [m |-> m], IF MEx(db, m) THEN Ok(MsgRec(db, m)) ELSE NotFound, Sh(0, 0, HM(MEx(db, m))))
 
 R_GetTotalMessageCount ==
   DoRead("GetTotalMessageCount", [x |-> ""], Ok(ExMsgs(db)), Sh(Card(ExMsgs(db)), 0, ""))
 
-R_GetMessageRemoteID == \E m \in Msgs :
+R_GetMessageRemoteID == \E m \in Arg(Msgs) :
   DoRead("GetMessageRemoteID", [m |-> m], IF MEx(db, m) THEN Ok(db.msgs[m].rid) ELSE NotFound, Sh(0, 0, HM(MEx(db, m))))
 
-R_GetImportedMessageData == \E m \in Msgs :
+R_GetImportedMessageData == \E m \in Arg(Msgs) :
   DoRead("GetImportedMessageData", [m |-> m],
          IF MEx(db, m) THEN Ok([msg |-> MsgRec(db, m), fl |-> db.msgs[m].fl]) ELSE NotFound,
          Sh(IF MEx(db, m) THEN Card(db.msgs[m].fl) ELSE 0, 0, HM(MEx(db, m))))
 
 \* date and size are opaque: the reply names the message whose date and size must come back
-R_GetMessageDateAndSize == \E m \in Msgs :
+R_GetMessageDateAndSize == \E m \in Arg(Msgs) :
   DoRead("GetMessageDateAndSize", [m |-> m], IF MEx(db, m) THEN Ok(m) ELSE NotFound, Sh(0, 0, HM(MEx(db, m))))
 
-R_GetMessageMailboxIDs == \E m \in Msgs :
+R_GetMessageMailboxIDs == \E m \in Arg(Msgs) :
   LET S == {e.b : e \in {x \in db.m2b : x.m = m}} IN
   DoRead("GetMessageMailboxIDs", [m |-> m], Ok(S), Sh(Card(S), 0, HM(MEx(db, m))))
 
-R_GetMessagesFlags == \E l \in MsgLists :
+R_GetMessagesFlags == \E l \in Arg(MsgLists) :
   LET hit == {m \in Range(l) : MEx(db, m)} IN
   DoRead("GetMessagesFlags", [ml |-> l], Ok({[m |-> m, rid |-> db.msgs[m].rid, fl |-> db.msgs[m].fl] : m \in hit}),
          Sh(Len(l), Card(hit), ""))
@@ -379,11 +389,11 @@ R_GetMessageIDsMarkedAsDelete ==
   LET S == {m \in ExMsgs(db) : db.msgs[m].del} IN
   DoRead("GetMessageIDsMarkedAsDelete", [x |-> ""], Ok(S), Sh(Card(ExMsgs(db)), Card(S), ""))
 
-R_GetMessageIDFromRemoteID == \E r \in MsgRids :
+R_GetMessageIDFromRemoteID == \E r \in Arg(MsgRids) :
   LET S == MsgByRid(db, r) IN
   DoRead("GetMessageIDFromRemoteID", [r |-> r], IF S = {} THEN NotFound ELSE Ok(Pick(S)), Sh(0, 0, HM(S # {})))
 
-R_GetMessageDeletedFlag == \E m \in Msgs :
+R_GetMessageDeletedFlag == \E m \in Arg(Msgs) :
   DoRead("GetMessageDeletedFlag", [m |-> m], IF MEx(db, m) THEN Ok(db.msgs[m].del) ELSE NotFound,
          Sh(0, 0, IF MEx(db, m) THEN (IF db.msgs[m].del THEN "deleted" ELSE "kept") ELSE "miss"))
 
@@ -408,14 +418,14 @@ NewBox(d, r, n, fs, uv) ==
 NewBoxRec(d, r, n, uv) == [id |-> d.nextBox, rid |-> r, name |-> n, uv |-> uv, sub |-> TRUE]
 CreateTag(d, r, n) == IF BoxByRid(d, r) # {} THEN "remote-id-taken" ELSE IF BoxByName(d, n) # {} THEN "name-taken" ELSE "new"
 
-W_CreateMailbox == \E r \in BoxRids, n \in BoxNames, fs \in BoxFlagSets, uv \in UVs :
+W_CreateMailbox == \E r \in Arg(BoxRids), n \in Arg(BoxNames), fs \in Arg(BoxFlagSets), uv \in Arg(UVs) :
   LET tag == CreateTag(db, r, n) IN
   /\ db.nextBox <= MaxBox
   /\ DoWrite("CreateMailbox", [r |-> r, n |-> n, fs |-> fs, uv |-> uv],
              IF tag = "new" THEN Ok(NewBoxRec(db, r, n, uv)) ELSE Err, Sh(0, 0, tag), NewBox(db, r, n, fs, uv))
 
 \* returns the mailbox with that remote id if there is one (whatever its name), creates it otherwise
-GetOrCreate(op, withReply) == \E r \in BoxRids, n \in BoxNames, fs \in BoxFlagSets, uv \in UVs :
+GetOrCreate(op, withReply) == \E r \in Arg(BoxRids), n \in Arg(BoxNames), fs \in Arg(BoxFlagSets), uv \in Arg(UVs) :
   LET S == BoxByRid(db, r)
       tag == IF S # {} THEN "existing" ELSE CreateTag(db, r, n) IN
   /\ S # {} \/ db.nextBox <= MaxBox
@@ -429,7 +439,7 @@ W_GetOrCreateMailbox == GetOrCreate("GetOrCreateMailbox", TRUE)
 W_GetOrCreateMailboxAlt == GetOrCreate("GetOrCreateMailboxAlt", TRUE)
 W_CreateMailboxIfNotExists == GetOrCreate("CreateMailboxIfNotExists", FALSE)
 
-W_RenameMailboxWithRemoteID == \E r \in BoxRids, n \in BoxNames :
+W_RenameMailboxWithRemoteID == \E r \in Arg(BoxRids), n \in Arg(BoxNames) :
   LET S == BoxByRid(db, r)
       tag == IF S = {} THEN "miss" ELSE IF BoxByName(db, n) \ S # {} THEN "name-taken"
              ELSE IF db.mb[Pick(S)].name = n THEN "same-name" ELSE "renamed" IN
@@ -440,7 +450,7 @@ W_RenameMailboxWithRemoteID == \E r \in BoxRids, n \in BoxNames :
 DSClash(S, n, r) == \E e \in S : e.rid = r /\ e.name # n
 DSAdd(S, n, r) == {e \in S : e.name # n} \cup {[name |-> n, rid |-> r]}
 
-W_DeleteMailboxWithRemoteID == \E r \in BoxRids :
+W_DeleteMailboxWithRemoteID == \E r \in Arg(BoxRids) :
   LET S == BoxByRid(db, r)
       b == Pick(S)
       clash == S # {} /\ db.mb[b].sub /\ DSClash(db.dsubs, db.mb[b].name, r)
@@ -453,7 +463,7 @@ W_DeleteMailboxWithRemoteID == \E r \in BoxRids :
                           !.dsubs = IF db.mb[b].sub THEN DSAdd(@, db.mb[b].name, r) ELSE @])
 
 \* an empty list adds nothing and asks nothing, whatever the mailbox
-W_AddMessagesToMailbox == \E b \in BoxArgs : \E l \in MsgLists :
+W_AddMessagesToMailbox == \E b \in Arg(BoxArgs) : \E l \in Arg(MsgLists) :
   LET ok == {m \in Range(l) : MEx(db, m) /\ ~InBox(db, m, b)}
       good == Ex(db, b) /\ ok = Range(l)
       n0 == IF Ex(db, b) THEN db.mb[b].next ELSE 1
@@ -469,7 +479,7 @@ W_AddMessagesToMailbox == \E b \in BoxArgs : \E l \in MsgLists :
 
 DropRows(rows, S) == SelectSeq(rows, LAMBDA row : row.m \notin S)
 
-W_RemoveMessagesFromMailbox == \E b \in BoxArgs : \E l \in MsgLists :
+W_RemoveMessagesFromMailbox == \E b \in Arg(BoxArgs) : \E l \in Arg(MsgLists) :
   LET hit == {m \in Range(l) : InBox(db, m, b)} IN
   DoWrite("RemoveMessagesFromMailbox", [b |-> b, ml |-> l],
           IF l = <<>> THEN Done ELSE IF Ex(db, b) THEN Done ELSE Err, Sh(Len(l), Card(hit), HM(Ex(db, b))),
@@ -478,18 +488,18 @@ W_RemoveMessagesFromMailbox == \E b \in BoxArgs : \E l \in MsgLists :
 
 MapRows(rows, F(_)) == [i \in DOMAIN rows |-> F(rows[i])]
 
-W_ClearRecentFlagInMailboxOnMessage == \E b \in BoxArgs : \E m \in Msgs :
+W_ClearRecentFlagInMailboxOnMessage == \E b \in Arg(BoxArgs) : \E m \in Arg(Msgs) :
   DoWrite("ClearRecentFlagInMailboxOnMessage", [b |-> b, m |-> m], IF Ex(db, b) THEN Done ELSE Err,
           Sh(0, 0, IF ~Ex(db, b) THEN "miss" ELSE IF ~InBox(db, m, b) THEN "not-in-mailbox"
                    ELSE IF m \in RecentMsgs(db, b) THEN "recent" ELSE "not-recent"),
           [db EXCEPT !.mb[b].rows = MapRows(@, LAMBDA row : IF row.m = m THEN [row EXCEPT !.rec = FALSE] ELSE row)])
 
-W_ClearRecentFlagsInMailbox == \E b \in BoxArgs :
+W_ClearRecentFlagsInMailbox == \E b \in Arg(BoxArgs) :
   DoWrite("ClearRecentFlagsInMailbox", [b |-> b], IF Ex(db, b) THEN Done ELSE Err,
           IF Ex(db, b) THEN Sh(Len(Rows(db, b)), Card(RecentMsgs(db, b)), "hit") ELSE Sh(0, 0, "miss"),
           [db EXCEPT !.mb[b].rows = MapRows(@, LAMBDA row : [row EXCEPT !.rec = FALSE])])
 
-W_SetMailboxMessagesDeletedFlag == \E b \in BoxArgs : \E l \in MsgLists : \E d \in BOOLEAN :
+W_SetMailboxMessagesDeletedFlag == \E b \in Arg(BoxArgs) : \E l \in Arg(MsgLists) : \E d \in Arg(BOOLEAN) :
   LET hit == {m \in Range(l) : InBox(db, m, b)} IN
   DoWrite("SetMailboxMessagesDeletedFlag", [b |-> b, ml |-> l, d |-> d],
           IF l = <<>> THEN Done ELSE IF Ex(db, b) THEN Done ELSE Err,
@@ -498,27 +508,27 @@ W_SetMailboxMessagesDeletedFlag == \E b \in BoxArgs : \E l \in MsgLists : \E d \
           ELSE [db EXCEPT !.mb[b].rows = MapRows(@, LAMBDA row : IF row.m \in Range(l) THEN [row EXCEPT !.del = d] ELSE row)])
 
 \* no check that the mailbox exists: nothing to update is not an error
-W_SetMailboxSubscribed == \E b \in BoxArgs : \E s \in BOOLEAN :
+W_SetMailboxSubscribed == \E b \in Arg(BoxArgs) : \E s \in Arg(BOOLEAN) :
   DoWrite("SetMailboxSubscribed", [b |-> b, s |-> s], Done,
           Sh(0, 0, IF ~Ex(db, b) THEN "miss" ELSE IF s THEN "subscribe" ELSE "unsubscribe"),
           IF Ex(db, b) THEN [db EXCEPT !.mb[b].sub = s] ELSE db)
 
-W_UpdateRemoteMailboxID == \E b \in BoxArgs : \E r \in BoxRids :
+W_UpdateRemoteMailboxID == \E b \in Arg(BoxArgs) : \E r \in Arg(BoxRids) :
   LET tag == IF ~Ex(db, b) THEN "miss" ELSE IF BoxByRid(db, r) \ {b} # {} THEN "remote-id-taken"
              ELSE IF db.mb[b].rid = r THEN "same-id" ELSE "changed" IN
   DoWrite("UpdateRemoteMailboxID", [b |-> b, r |-> r], IF tag \in {"miss", "remote-id-taken"} THEN Err ELSE Done,
           Sh(0, 0, tag), [db EXCEPT !.mb[b].rid = r])
 
-W_SetMailboxUIDValidity == \E b \in BoxArgs : \E uv \in UVs :
+W_SetMailboxUIDValidity == \E b \in Arg(BoxArgs) : \E uv \in Arg(UVs) :
   DoWrite("SetMailboxUIDValidity", [b |-> b, uv |-> uv], IF Ex(db, b) THEN Done ELSE Err, Sh(0, 0, HM(Ex(db, b))),
           [db EXCEPT !.mb[b].uv = uv])
 
 \* adding no flag at all changes nothing
-W_AddFlagsToAllMailboxes == \E F \in FlagSets :
+W_AddFlagsToAllMailboxes == \E F \in Arg(FlagSets) :
   DoWrite("AddFlagsToAllMailboxes", [fl |-> F], Done, Sh(Card(F), Card(ExBoxes(db)), ""),
           [db EXCEPT !.mb = [b \in BoxIds |-> IF db.mb[b].ex THEN [db.mb[b] EXCEPT !.fl = @ \cup F] ELSE db.mb[b]]])
 
-W_AddPermFlagsToAllMailboxes == \E F \in FlagSets :
+W_AddPermFlagsToAllMailboxes == \E F \in Arg(FlagSets) :
   DoWrite("AddPermFlagsToAllMailboxes", [fl |-> F], Done, Sh(Card(F), Card(ExBoxes(db)), ""),
           [db EXCEPT !.mb = [b \in BoxIds |-> IF db.mb[b].ex THEN [db.mb[b] EXCEPT !.pf = @ \cup F] ELSE db.mb[b]]])
 
@@ -528,13 +538,13 @@ W_AddPermFlagsToAllMailboxes == \E F \in FlagSets :
 \* a new message m arrives with its home remote id (= m); remote ids are unique among messages
 CanCreate(d, S) == \A m \in S : ~MEx(d, m) /\ MsgByRid(d, m) = {}
 
-W_CreateMessages == \E l \in MsgLists : \E F \in FlagSets :
+W_CreateMessages == \E l \in Arg(MsgLists) : \E F \in Arg(FlagSets) :
   LET ok == {m \in Range(l) : CanCreate(db, {m})} IN
   DoWrite("CreateMessages", [ml |-> l, fl |-> F], IF ok = Range(l) THEN Done ELSE Err, Sh(Len(l), Card(ok), ""),
           [db EXCEPT !.msgs = [m \in Msgs |-> IF m \in Range(l) THEN [ex |-> TRUE, rid |-> m, del |-> FALSE, fl |-> F]
                                               ELSE db.msgs[m]]])
 
-W_CreateMessageAndAddToMailbox == \E b \in BoxArgs : \E m \in Msgs : \E F \in FlagSets :
+W_CreateMessageAndAddToMailbox == \E b \in Arg(BoxArgs) : \E m \in Arg(Msgs) : \E F \in Arg(FlagSets) :
   LET good == CanCreate(db, {m}) /\ Ex(db, b)
       n0 == IF Ex(db, b) THEN db.mb[b].next ELSE 1 IN
   /\ good => n0 <= MaxUid
@@ -546,24 +556,24 @@ W_CreateMessageAndAddToMailbox == \E b \in BoxArgs : \E m \in Msgs : \E F \in Fl
                         !.mb[b].next = @ + 1,
                         !.m2b = @ \cup {[m |-> m, b |-> b]}])
 
-W_MarkMessageAsDeleted == \E m \in Msgs :
+W_MarkMessageAsDeleted == \E m \in Arg(Msgs) :
   DoWrite("MarkMessageAsDeleted", [m |-> m], Done, Sh(0, 0, HM(MEx(db, m))),
           IF MEx(db, m) THEN [db EXCEPT !.msgs[m].del = TRUE] ELSE db)
 
 \* domain of the operation: a message that has been removed from every mailbox (that is how gluon uses it; the
 \* remote id copied into mailbox rows would otherwise be left behind)
-W_MarkMessageAsDeletedAndAssignRandomRemoteID == \E m \in Msgs :
+W_MarkMessageAsDeletedAndAssignRandomRemoteID == \E m \in Arg(Msgs) :
   /\ BoxesOf(db, m) = {}
   /\ DoWrite("MarkMessageAsDeletedAndAssignRandomRemoteID", [m |-> m], Done, Sh(0, 0, HM(MEx(db, m))),
              IF MEx(db, m) THEN [db EXCEPT !.msgs[m].del = TRUE, !.msgs[m].rid = Rnd] ELSE db)
 
-W_MarkMessageAsDeletedWithRemoteID == \E r \in MsgRids :
+W_MarkMessageAsDeletedWithRemoteID == \E r \in Arg(MsgRids) :
   LET S == MsgByRid(db, r) IN
   DoWrite("MarkMessageAsDeletedWithRemoteID", [r |-> r], Done, Sh(0, 0, HM(S # {})),
           IF S # {} THEN [db EXCEPT !.msgs[Pick(S)].del = TRUE] ELSE db)
 
 \* a message that is still in a mailbox cannot be deleted (the mailbox row refers to it)
-W_DeleteMessages == \E l \in MsgLists :
+W_DeleteMessages == \E l \in Arg(MsgLists) :
   LET hit == {m \in Range(l) : MEx(db, m)}
       held == {m \in hit : BoxesOf(db, m) # {}} IN
   DoWrite("DeleteMessages", [ml |-> l], IF held # {} THEN Err ELSE Done,
@@ -572,26 +582,26 @@ W_DeleteMessages == \E l \in MsgLists :
                      !.m2b = {e \in @ : e.m \notin Range(l)}])
 
 \* sets the remote id of that message (one attribute of the message, wherever it is shown)
-W_UpdateRemoteMessageID == \E m \in Msgs : \E r \in MsgRids :
+W_UpdateRemoteMessageID == \E m \in Arg(Msgs) : \E r \in Arg(MsgRids) :
   LET tag == IF ~MEx(db, m) THEN "miss" ELSE IF MsgByRid(db, r) \ {m} # {} THEN "remote-id-taken"
              ELSE IF db.msgs[m].rid = r THEN "same-id" ELSE "changed" IN
   DoWrite("UpdateRemoteMessageID", [m |-> m, r |-> r], IF tag \in {"miss", "remote-id-taken"} THEN Err ELSE Done,
           Sh(Card(BoxesOf(db, m)), 0, tag), [db EXCEPT !.msgs[m].rid = r])
 
 \* a flag can only be attached to an existing message
-W_AddFlagToMessages == \E l \in MsgLists : \E f \in Flags :
+W_AddFlagToMessages == \E l \in Arg(MsgLists) : \E f \in Arg(Flags) :
   LET hit == {m \in Range(l) : MEx(db, m)} IN
   DoWrite("AddFlagToMessages", [ml |-> l, f |-> f], IF hit = Range(l) THEN Done ELSE Err,
           Sh(Len(l), Card({m \in hit : f \notin db.msgs[m].fl}), IF hit = Range(l) THEN "" ELSE "unknown-message"),
           [db EXCEPT !.msgs = [m \in Msgs |-> IF m \in Range(l) THEN [db.msgs[m] EXCEPT !.fl = @ \cup {f}] ELSE db.msgs[m]]])
 
-W_RemoveFlagFromMessages == \E l \in MsgLists : \E f \in Flags :
+W_RemoveFlagFromMessages == \E l \in Arg(MsgLists) : \E f \in Arg(Flags) :
   LET hit == {m \in Range(l) : MEx(db, m)} IN
   DoWrite("RemoveFlagFromMessages", [ml |-> l, f |-> f], Done,
           Sh(Len(l), Card({m \in hit : f \in db.msgs[m].fl}), ""),
           [db EXCEPT !.msgs = [m \in Msgs |-> IF m \in hit THEN [db.msgs[m] EXCEPT !.fl = @ \ {f}] ELSE db.msgs[m]]])
 
-W_SetFlagsOnMessages == \E l \in MsgLists : \E F \in FlagSets :
+W_SetFlagsOnMessages == \E l \in Arg(MsgLists) : \E F \in Arg(FlagSets) :
   LET hit == {m \in Range(l) : MEx(db, m)}
       bad == F # {} /\ hit # Range(l) IN
   DoWrite("SetFlagsOnMessages", [ml |-> l, fl |-> F], IF bad THEN Err ELSE Done,
@@ -601,18 +611,18 @@ W_SetFlagsOnMessages == \E l \in MsgLists : \E F \in FlagSets :
 -----------------------------------------------------------------------------
 (* write operations: deleted subscriptions, settings *)
 
-W_AddDeletedSubscription == \E n \in BoxNames : \E r \in BoxRids :
+W_AddDeletedSubscription == \E n \in Arg(BoxNames) : \E r \in Arg(BoxRids) :
   LET clash == DSClash(db.dsubs, n, r)
       tag == IF clash THEN "remote-id-taken" ELSE IF \E e \in db.dsubs : e.name = n THEN "replace" ELSE "new" IN
   DoWrite("AddDeletedSubscription", [n |-> n, r |-> r], IF clash THEN Err ELSE Done, Sh(0, 0, tag),
           [db EXCEPT !.dsubs = DSAdd(@, n, r)])
 
-W_RemoveDeletedSubscriptionWithName == \E n \in BoxNames :
+W_RemoveDeletedSubscriptionWithName == \E n \in Arg(BoxNames) :
   LET S == {e \in db.dsubs : e.name = n} IN
   DoWrite("RemoveDeletedSubscriptionWithName", [n |-> n], Ok(Card(S)), Sh(0, 0, HM(S # {})),
           [db EXCEPT !.dsubs = @ \ S])
 
-W_StoreConnectorSettings == \E s \in SettingsVals :
+W_StoreConnectorSettings == \E s \in Arg(SettingsVals) :
   DoWrite("StoreConnectorSettings", [s |-> s], Done, Sh(0, 0, IF db.settings = SNull THEN "first" ELSE "again"),
           [db EXCEPT !.settings = s])
 
